@@ -126,7 +126,7 @@ Proof.
   - destruct (Nat.eqb_spec q q0); auto.
 Qed.
 
-Lemma log_ok_app store async l1 : forall a t, log_ok store async (l1 ++ a :: t) -> act_ok store async t a /\ log_ok store async t.
+Lemma log_ok_app okrow async l1 : forall a t, log_ok okrow async (l1 ++ a :: t) -> act_ok okrow async t a /\ log_ok okrow async t.
 Proof. induction l1 as [|x l1 IH]; intros a t H; cbn in H; [exact H|]. destruct H as [_ H]. apply IH. exact H. Qed.
 
 (* the last accepted AUTH of a connection is in the log, so it was legitimate *)
@@ -147,7 +147,7 @@ Variable async_store : bool.
 Notation run := (run bname store async_store).
 Notation step := (step bname store async_store).
 Notation evo := (evo bname).
-Notation Good := (Good store async_store).
+Notation Good := (Good (srow store) async_store).
 
 Lemma good_run h : Good (run h).
 Proof. apply run_good. Qed.
